@@ -72,6 +72,8 @@ Definition ledger_case := (config * list (Z * Z * Z * Z))%type.   (* ticks, task
    152 armed timers differ; 153 more wakeup entries than top-level components *)
 Definition check_ledger (c : ledger_case) : list Z :=
   let '(cfg, counts) := c in
-  (if forallb (fun x : Z * Z * Z * Z => let '(_, tasks, _, _) := x in Z.eqb tasks (expected_tasks cfg)) counts then [] else [151]) ++
+  (* while it sleeps the master holds its two waiter tasks; idle (no wakeup pending) it awaits new_wakeup itself *)
+  (if forallb (fun x : Z * Z * Z * Z => let '(_, tasks, _, _) := x in
+                 Z.eqb tasks (expected_tasks cfg) || Z.eqb tasks (expected_tasks cfg - 2)) counts then [] else [151]) ++
   (if forallb (fun x : Z * Z * Z * Z => let '(_, _, timers, _) := x in Z.leb timers expected_timers) counts then [] else [152]) ++
   (if forallb (fun x : Z * Z * Z * Z => let '(_, _, _, w) := x in Z.leb w (top_components cfg)) counts then [] else [153]).
